@@ -408,6 +408,30 @@ def injections(ctx, all_bases):
                 f6 = dict(files)
                 f6[u] = src[:cut] + "\n" + again + src[cut:]
                 add("%s-%s-%s-dup-of-included-name" % (btag, u, name), f6, argv, "duplicate-definition")
+        # ---- fourth audit (report A item 6): what the tool detects / could detect and the matrix lacked
+        # anonymous main component (`invalid ... anonymous component` of the property text; parser/src/lib.rs:148-157, the one
+        # report of `rest'`): must be reported. The main component of the base (if any) is replaced.
+        mu = next((u for u in user if "component main" in files[u]), user[0])
+        base_src = re.sub(r"component main\b[^;]*;\n?", "", files[mu])
+        f2 = dict(files)
+        f2[mu] = base_src + a_main_for(files, mu).replace(";\n", "(1);\n")
+        add("%s-anonymous-main" % btag, f2, argv, "anonymous-main")
+        # a main component naming a template that exists nowhere: NOT a failure class of C02's text (the file is read and
+        # parsed, every definition in it analysed, nothing is dropped); generated and counted (today: `No issues found.`)
+        f2 = dict(files)
+        f2[mu] = base_src + "component main = Nowhere(3);\n"
+        add("%s-undefined-main-template" % btag, f2, argv, "undefined-main-template", uncond=False)
+        # a named directory without any .circom file: not `a file named on the command line [that] cannot be opened`; the set
+        # of user-specified files it stands for is empty. Observed, not a failure class.
+        f2 = dict(files, **{"emptydir/README.txt": "no circom file here\n"})
+        add("%s-empty-named-directory" % btag, f2, argv + ["emptydir"], "empty-named-directory", uncond=False)
+        add("%s-only-empty-named-directory" % btag, f2, ["emptydir"], "empty-named-directory", uncond=False)
+        # `-L nosuchdir`: ignored by add_libraries. Harmless when no include needs it (observed); when an include of a named
+        # file can only be served from it, that include resolves nowhere: class unresolved-include, must be reported
+        add("%s-missing-library-dir" % btag, files, argv, "missing-library-dir", uncond=False, libs=list(blibs) + ["nosuchdir"])
+        f2 = dict(files)
+        f2[user[0]] = f2[user[0]].replace('include "', 'include "only_in_the_library.circom";\ninclude "', 1)
+        add("%s-include-needs-missing-library-dir" % btag, f2, argv, "unresolved-include", libs=list(blibs) + ["nosuchdir"])
         # the open question of DESIGN §4: arguments without the .circom suffix
         add("%s-nosuffix-missing" % btag, files, argv + ["nosuchfile.txt"], "non-circom-argument", uncond=False)
         # (its own template: since the repair the file is read, and a copy of b.circom would be a duplicate definition)
@@ -432,7 +456,8 @@ CONDITIONAL_ONLY = ("InvalidTupleOrAnonymous",)
 
 
 # injected for the correspondence of the version check only: no failure class of the property text
-NOT_FAILURES = ("supported-pragma", "no-pragma", "included-only-parse-error", "bad-pragma-included-only", "custom-template")
+NOT_FAILURES = ("supported-pragma", "no-pragma", "included-only-parse-error", "bad-pragma-included-only", "custom-template",
+                "undefined-main-template", "empty-named-directory", "missing-library-dir", "many-named-files")
 
 
 def coq_class(cls):
@@ -509,6 +534,25 @@ def run(ctx, proofs):
                                  "main": any("component main" in f for f in b[1].values())} for b in rbases]
         all_bases = bases() + rbases
         inj = injections(ctx, all_bases)
+        # fourth audit: MANY named files (a cap on the number of named / read files would leave named files silently unread):
+        # 70 named one-template files, clean (judged by clean_problems: every named file read, every definition analysed), and the
+        # same with a definition that cannot be lifted in the LAST file / a missing file named last
+        many = {"m%02d.circom" % i: "pragma circom 2.0.0;\ntemplate M%02d(n) {\n    signal input in;\n    signal output out;\n    out <== in * n;\n}\n" % i
+                for i in range(70)}
+        names = sorted(many)
+        inj.append((e2e.Project(many, names, tag="many70-clean", meta={"class": "many-named-files"}), "many-named-files", False))
+        bad_last = dict(many)
+        bad_last[names[-1]] = bad_last[names[-1]].replace("out <== in * n;", "var yy; var zz = yy + 1;\n    out <== in * n;")
+        for order, tag in ((names, "last"), (names[::-1], "first")):
+            inj.append((e2e.Project(bad_last, order, tag="many70-lift-failure-in-the-file-named-" + tag, meta={"class": "lift-failure"}),
+                        "lift-failure", True))
+        inj.append((e2e.Project(many, names + ["nosuchfile.circom"], tag="many70-missing-file-named-last", meta={"class": "missing-file"}),
+                    "missing-file", True))
+        # fourth audit: a third of the injected projects is run with RELATIVE spellings of the named files (`a.circom`, `./a.circom`)
+        for p_, _, _ in inj:
+            x = ctx.rng.random()
+            if x < 0.34 and p_.meta.get("note") != "chmod000":
+                p_.meta["spelling"] = "rel" if x < 0.2 else "dot"
         projects = []
         # the clean bases themselves + corpus witnesses
         for btag, files, argv, blibs in all_bases:
@@ -536,6 +580,7 @@ def run(ctx, proofs):
         # C02_clean_only_if_all_read_and_analysed, C02_user_ids_are_named_files)
         front_dis, front_stats = c02front.compare(projects, raw_truths)
         canon_broken = front_stats.pop("hypothesis_broken")
+        revisited = front_stats.pop("directory_revisited")
         pf_code = front_stats["parse_fail_code"]
         # Spec.NoSilentSpec.class_table, printed by the extracted driver: class -> (producer, shape)
         coq_table = c02front.class_table()
@@ -578,7 +623,8 @@ def run(ctx, proofs):
                 short = [m for m in miss if ids and any(i.startswith(m) for i in ids)]       # proper prefixes first
                 allow = (short[:1] + [m for m in miss if m not in short[:1]])[:ctx.rng.randint(1, 3)]
                 runs.append({"p": k, "level": "error", "allow": allow, "verbose": ctx.rng.random() < 0.5, "sarif": ctx.rng.random() < 0.5,
-                             "option_variant": True})
+                             "option_variant": True, "short": ctx.rng.random() < 0.5,
+                             "curve": ctx.rng.choice([None, "BN254", "bn254"])})
                 opt_runs_of.setdefault(k, []).append(len(runs) - 1)
         dis, fail = e2e.evaluate(cli, projects, truths, runs)
         # the bases must be clean, otherwise the matrix shows nothing
@@ -719,12 +765,13 @@ def run(ctx, proofs):
             elif proofs["failures"]:
                 ctx.violation("proof obligations of C02 no longer check: " + "; ".join(proofs["failures"])[:500],
                               {"broken": "props/C02.v", "failures": proofs["failures"]}, no_input=True)
-            elif canon_broken or wf_broken or metas_broken or model_wf_broken or defs_file_broken:
+            elif canon_broken or wf_broken or metas_broken or model_wf_broken or defs_file_broken or revisited:
                 which = ("canon idempotent (forall p c, canon p = Some c -> canon c = Some c)" if canon_broken else
+                         "dirs_revisited = false (no named directory is met twice)" if revisited and not (wf_broken or model_wf_broken or metas_broken or defs_file_broken) else
                          "wf_project" if (wf_broken or model_wf_broken) else
                          "body_in_file (every meta of a definition's body lies in the file of the definition)" if metas_broken else
                          "defs_file_ok (every definition the parser yields for the i-th file of the FileLibrary carries file id i)")
-                lst = canon_broken or wf_broken or model_wf_broken or metas_broken or defs_file_broken
+                lst = canon_broken or wf_broken or model_wf_broken or metas_broken or defs_file_broken or revisited
                 d = lst[0]
                 ctx.violation("hypothesis `%s` of the theorems of props/C02.v does not hold on %d explored projects, first %s"
                               % (which, len(lst), d.get("tag")),
@@ -770,12 +817,16 @@ def run(ctx, proofs):
             "hypotheses_evaluated": {
                 "canon_idempotent": {"holds": front_stats["canon_idempotent"], "broken": len(canon_broken),
                                      "on": "the canonicalisation table of every project the front comparison encodes"},
+                "name_id_injective": "the hypothesis that replaced wf_project in the run-level theorems (fourth audit: wf_project of the tied "
+                                     "project is now PROVED, C02_tied_project_is_wf); in the model run the names are the strings themselves and "
+                                     "the check numbers them with a dictionary (lib/e2e.py Truth._dname): injective by construction",
                 "wf_project": {"holds": stage_stats["wf_project_holds"], "broken": len(model_wf_broken),
-                               "on": "the definitions the MODEL hands to the runner (the library its Merger / TemplateLibrary mirror keeps of "
-                                     "ALL definitions the single-file parser yields, duplicates included: "
-                                     "front_stages.projects_with_a_name_defined_twice of them contain a duplicate); "
-                                     "also on the keys of the in-process ground truth (always distinct: HashMap keys)",
+                               "on": "kept as a cross-check only: it cannot fail on the model's library (NoDup by theorem) nor on the HashMap "
+                                     "keys of the ground truth; no theorem about a run carries it any more",
                                "on_the_ground_truth": {"holds": wf_holds, "broken": len(wf_broken)}},
+                "dirs_revisited_false": {"holds": front_stats.get("no_directory_revisited"), "broken": len(revisited),
+                                         "on": "every project the front comparison encodes (printed by the extracted driver; the matrix has no "
+                                               "link back to a named directory, C19 owns that shape)"},
                 "defs_file_ok": {"holds": stage_stats["defs_file_hypothesis_holds"], "broken": len(defs_file_broken),
                                  "on": "every definition of every file of every project the stage comparison encodes"},
                 "body_in_file": {"holds": stage_stats["metas_hypothesis_holds"], "broken": len(metas_broken),
@@ -796,6 +847,11 @@ def run(ctx, proofs):
             },
             "random_bases": rand_stats,
             "option_variant_runs": len([r for r in runs if r.get("option_variant")]),
+            "runs_with_one_letter_options": len([r for r in runs if r.get("short")]),
+            "runs_naming_the_curve": len([r for r in runs if r.get("curve")]),
+            "runs_with_relative_spellings_of_the_named_files": len([r for r in runs if r.get("path_prefix")]),
+            "observed_not_failure_classes": {c: {k: v for k, v in st.items() if k.startswith("observed") or k == "injected"}
+                                             for c, st in per_class.items() if c in NOT_FAILURES},
             "option_variant_samples": [r["allow"] for r in runs if r.get("option_variant")][:: max(1, len(opt_runs_of) // 6)][:6],
             "included_only_parse_error_observed": per_class.get("included-only-parse-error"),
             "samples": [{"tag": p.tag, "class": c, "argv": p.argv} for p, c, _ in inj[:: max(1, len(inj) // 4)][:4]],
